@@ -6,7 +6,7 @@
    soundness theorems over the plain tree [mroot] are not yet proved (stated below as the
    checked, bounded obligations they currently are). *)
 From Coq Require Import List NArith.
-From Sia Require Import Prim.Tok Merkle.Tree Merkle.Forest Merkle.Rhp Merkle.RhpProofs Merkle.RhpRoot Merkle.RgComplete Merkle.RgSound Merkle.RgSound2 Merkle.RgAppend Merkle.RgGap Merkle.RgMulti.
+From Sia Require Import Prim.Tok Merkle.Tree Merkle.Forest Merkle.Rhp Merkle.RhpProofs Merkle.RhpRoot Merkle.RgComplete Merkle.RgSound Merkle.RgSound2 Merkle.RgAppend Merkle.RgGap Merkle.RgMulti Merkle.RgDiff2 Merkle.RgDiff3.
 Import ListNotations.
 
 Theorem C16_accumulator_is_forest : forall H L ds xs, Repr hash (node H) L ds ->
@@ -193,3 +193,44 @@ Theorem C16_diff_new_root_determined : forall H (acts : list action) (ls th lh :
   diff_new_root H acts ls ar = Some newRoot \/ RgSound.NodeCollision H.
 Proof. exact diff_new_determined. Qed.
 Print Assumptions C16_diff_new_root_determined.
+
+(* ---- diff / free-sector proofs: the whole verifier ---- *)
+(* [apply_acts] is what the actions do to the list of sector roots (append takes the next precomputed root, trim drops
+   from the end, swap exchanges two roots; None when an action is out of range). For every action list that is in range,
+   BuildDiffProof's output passes VerifyDiffProof with the plain roots of the old list and of the list after the actions *)
+Theorem C16_diff_complete : forall H (acts : list action) (ls ar new : list hash),
+  apply_acts acts ls ar = Some new -> (N.of_nat (length ls) < 2 ^ 64)%N -> (N.of_nat (length new) < 2 ^ 64)%N ->
+  verify_diff_proof H acts (N.of_nat (length ls)) (fst (build_diff_proof H acts ls)) (snd (build_diff_proof H acts ls)) (mroot H ls) (mroot H new) ar = Some true.
+Proof. exact diff_complete. Qed.
+Print Assumptions C16_diff_complete.
+
+(* ... and whatever VerifyDiffProof accepts against the plain old root (count held true) carries the plain root of the list
+   after the actions as new root, the true roots of the changed sectors as leaf hashes and the builder's tree hashes -- or
+   a node collision is exhibited. An altered tree hash, leaf hash, old root or new root, and a proof with fewer or more
+   tree hashes, are therefore rejected. *)
+Theorem C16_diff_sound : forall H (acts : list action) (ls th lh ar new : list hash) (newRoot : hash),
+  apply_acts acts ls ar = Some new -> (N.of_nat (length ls) < 2 ^ 64)%N -> (N.of_nat (length new) < 2 ^ 64)%N ->
+  verify_diff_proof H acts (N.of_nat (length ls)) th lh (mroot H ls) newRoot ar = Some true ->
+  (newRoot = mroot H new /\ lh = snd (build_diff_proof H acts ls) /\ th = fst (build_diff_proof H acts ls)) \/ RgSound.NodeCollision H.
+Proof. exact diff_sound. Qed.
+Print Assumptions C16_diff_sound.
+
+(* rhp/v4 BuildFreeSectorsProof / VerifyFreeSectorsProof: the same for "swap the i-th freed index with the i-th sector from
+   the end, then trim" *)
+Theorem C16_free_sectors_complete : forall H (freed : list N) (ls new : list hash),
+  let acts := convert_free_actions freed (N.of_nat (length ls)) in
+  apply_acts acts ls [] = Some new -> (N.of_nat (length ls) < 2 ^ 64)%N -> (N.of_nat (length new) < 2 ^ 64)%N ->
+  verify_diff_proof H acts (N.of_nat (length ls)) (fst (build_diff_proof H acts ls)) (snd (build_diff_proof H acts ls)) (mroot H ls) (mroot H new) [] = Some true.
+Proof. exact free_complete. Qed.
+Print Assumptions C16_free_sectors_complete.
+
+Theorem C16_free_sectors_sound : forall H (freed : list N) (ls th lh new : list hash) (newRoot : hash),
+  let acts := convert_free_actions freed (N.of_nat (length ls)) in
+  apply_acts acts ls [] = Some new -> (N.of_nat (length ls) < 2 ^ 64)%N -> (N.of_nat (length new) < 2 ^ 64)%N ->
+  verify_diff_proof H acts (N.of_nat (length ls)) th lh (mroot H ls) newRoot [] = Some true ->
+  (newRoot = mroot H new /\ lh = snd (build_diff_proof H acts ls) /\ th = fst (build_diff_proof H acts ls)) \/ RgSound.NodeCollision H.
+Proof. exact free_sound. Qed.
+Print Assumptions C16_free_sectors_sound.
+
+Example C16_apply_acts_example : apply_acts [ASwap 1 3; ATrim 2; AAppend] [[1]; [2]; [3]; [4]; [5]]%N [[9%N]] = Some [[1]; [4]; [3]; [9]]%N.
+Proof. exact apply_acts_example. Qed.
